@@ -406,7 +406,7 @@ func (fr *frame) atCall(name string, st *State, pos token.Pos, cc *ssa.CallCommo
 	// the call's arguments are visible as arg0, arg1, ... (receiver first for
 	// static method calls)
 	for i, a := range args {
-		if i < len(cc.Args) {
+		if cc != nil && i < len(cc.Args) {
 			env.vars[fmt.Sprintf("arg%d", i)] = cval{t: a, typ: cc.Args[i].Type()}
 		}
 	}
